@@ -7,21 +7,27 @@ case = (backend, timed, parts, stages, draws, jobs)
           3: concurrent.futures.ThreadPoolExecutor            (events not observable)
           4: multiprocessing.Pool + cloudpickle/pickle.loads   5: multiprocessing.Pool + dill
           6: ProcessPoolExecutor + cloudpickle/pickle.loads    7: ProcessPoolExecutor + dill
+          8: an object whose map is the lazy builtin map (tasks run one by one while the driver consumes the results)
   timed   1: Context(cache_manager=TimedCacheManager())
   parts   source partitions (lists of small ints); stages from the source upwards:
-          (0, fcode) map/filter/flatMap from the function library | (1,) persist() | (2, seed, fraction) sample(False, ..)
-  draws   [(seed, first random() values of random.Random(seed))]  -- the Mersenne twister is an oracle for the model
+          (0, fcode) map/filter/flatMap from the function library | (1,) persist() |
+          (2, seed, 0, fraction) sample(False, fraction, seed) | (2, seed, 1, lam, exp(-lam)) sample(True, lam, seed)
+  draws   [(seed, the random() values random.Random(seed) hands out while the plain lineage is evaluated)]
+          -- the Mersenne twister (and math.exp) are oracles for the model
   jobs    [(depth, action, arg, schedule)]: action on the dataset made of the first `depth` stages;
           0 runJob(unit_map) per-partition lists, 1 collect, 2 count, 3 sum, 4 coalesce(arg) partitions
 result = ([(events, value) per job], cache_obj as [((stage position, partition), data)], stamped idents)
 """
 import atexit
 import itertools
+import math
+import operator
 import pickle
 import random
 
 from common.coqlit import Err
 import pysparkling
+import pysparkling.rdd as rdd_module
 from pysparkling.cache_manager import TimedCacheManager
 from pysparkling.rdd import unit_map
 from sched_pool import SchedPool
@@ -55,7 +61,7 @@ ASSUMPTIONS = [
     'process pools are modelled as copy-in / result-out; pickling fidelity of arbitrary closures and start methods '
     '(fork is used) are not modelled; data (de)serializers are left at their defaults',
     'the Mersenne twister is an oracle: the model receives the random() stream of random.Random(seed + index)',
-    'sample(withReplacement=True) (Poisson) is checked by the oracle on the real pools only, not modelled',
+    'sample(True, lam) is modelled through the pure-Python pysparkling_poisson (numpy absent); math.exp(-lam) is handed to the model',
     'user functions are pure and element-wise (function library of 7 map/filter/flatMap functions)',
 ]
 TRUSTED = ['py/sched_pool.py (sys.settrace gating of task threads)', 'Gen/Layout.v coalesce_plan kernel (translator)']
@@ -90,14 +96,21 @@ FNS = {
 }
 EXPANDING = (3, 6)
 BACKEND_NAMES = {0: 'sched', 1: 'sched+pickle', 2: 'dummy', 3: 'threadpool', 4: 'mp+cloudpickle', 5: 'mp+dill',
-                 6: 'ppe+cloudpickle', 7: 'ppe+dill'}
+                 6: 'ppe+cloudpickle', 7: 'ppe+dill', 8: 'lazy-map'}
 ACTION_NAMES = {0: 'runJob', 1: 'collect', 2: 'count', 3: 'sum', 4: 'coalesce'}
 
 _POOLS = {}
 
 
+class LazyMapPool:
+    """The smallest 'object exposing map(func, iterable)': nothing runs before the driver asks for a result."""
+    map = staticmethod(map)
+
+
 def _real_pool(backend):
     """Process/thread pools are expensive to start: one per kind, reused by all cases of the run."""
+    if backend == 8:
+        return LazyMapPool()
     kind = {3: 'tpe', 4: 'mp', 5: 'mp', 6: 'ppe', 7: 'ppe'}[backend]
     if kind not in _POOLS:
         if kind == 'tpe':
@@ -127,7 +140,7 @@ def _close_pools():
 
 
 def available_backends():
-    b = [0, 2, 3]
+    b = [0, 2, 3, 8]
     if cloudpickle is not None:
         b += [1, 4, 6]
     if dill is not None:
@@ -165,7 +178,7 @@ def build_lineage(sc, parts, stages, keep_persist=True):
                 r = r.persist()
                 ids[r.id()] = pos
         elif st[0] == 2:
-            r = r.sample(False, st[2], seed=st[1])
+            r = r.sample(bool(st[2]), st[3], seed=st[1])
         else:
             raise ValueError('stage')
         chain.append(r)
@@ -291,35 +304,61 @@ def nontrivial(case, result):
 
 def kind(case):
     backend, timed, parts, stages, _draws, jobs = case
-    shape = ''.join('MPS'[s[0]] for s in stages)
+    shape = ''.join('R' if s[0] == 2 and s[2] else 'MPS'[s[0]] for s in stages)
     return f'{BACKEND_NAMES.get(backend, backend)}{"+timed" if timed else ""}:{len(parts)}p:{shape}:{len(jobs)}j'
 
 
 # ---------------------------------------------------------------------------------------------------
 # generation
+class _RecRandom(random.Random):
+    """random.Random that records, per seed, the longest prefix of random() values handed out."""
+    streams = None
+
+    def __init__(self, seed=None):
+        super().__init__(seed)
+        self._c03_seed = seed
+        self._c03_n = 0
+
+    def random(self):
+        v = super().random()
+        if _RecRandom.streams is not None:
+            lst = _RecRandom.streams.setdefault(self._c03_seed, [])
+            if self._c03_n == len(lst):
+                lst.append(v)
+        self._c03_n += 1
+        return v
+
+
+class _RandomShim:
+    Random = _RecRandom
+
+    def __getattr__(self, name):
+        return getattr(random, name)
+
+
+_DRAWS = {}
+
+
 def draws_for(parts, stages):
-    """The random() streams the model may ask for: one per (sample stage, partition), long enough for any input."""
-    n = max([len(p) for p in parts] + [1])
-    out, seen = [], set()
-    for pos, st in enumerate(stages):
-        if st[0] == 0 and st[1] in EXPANDING:
-            n *= 2
-        if st[0] == 2:
-            for i in range(len(parts)):
-                s = st[1] + i
-                if s not in seen:
-                    seen.add(s)
-                    g = random.Random(s)
-                    out.append((s, [g.random() for _ in range(n)]))
-    # streams recorded for an earlier stage must also be long enough for a later stage with the same seed
-    longest = max([len(d) for _, d in out] + [0])
-    res = []
-    for s, d in out:
-        if len(d) < longest:
-            g = random.Random(s)
-            d = [g.random() for _ in range(longest)]
-        res.append((s, d))
-    return res
+    """The random() streams the model needs: the plain lineage (no persist) is evaluated once on the default
+    executor with a recording random.Random; every sample stage then draws for its whole input."""
+    if not any(st[0] == 2 for st in stages):
+        return []
+    key = repr((parts, stages))
+    if key not in _DRAWS:
+        if len(_DRAWS) > 5000:
+            _DRAWS.clear()
+        _RecRandom.streams = {}
+        saved = rdd_module.random
+        rdd_module.random = _RandomShim()
+        try:
+            chain, _ = build_lineage(pysparkling.Context(), parts, stages, keep_persist=False)
+            chain[-1].collect()
+            _DRAWS[key] = sorted((s, list(v)) for s, v in _RecRandom.streams.items())
+        finally:
+            rdd_module.random = saved
+            _RecRandom.streams = None
+    return _DRAWS[key]
 
 
 def mk(backend, timed, parts, stages, jobs):
@@ -353,6 +392,7 @@ def interleavings(counts):
 
 
 FRACTIONS = [0.0, 0.25, 0.5, 0.5, 0.75, 1.0, 0.1, 0.9]
+LAMBDAS = [0.0, 0.5, 1.0, 1.0, 2.5]
 
 
 def random_stages(rng):
@@ -362,8 +402,11 @@ def random_stages(rng):
         k = rng.random()
         if k < 0.4:
             stages.append((1,))
+        elif k < 0.55:
+            stages.append((2, rng.randint(0, 50), 0, rng.choice(FRACTIONS) if rng.random() < 0.7 else rng.random()))
         elif k < 0.65:
-            stages.append((2, rng.randint(0, 50), rng.choice(FRACTIONS) if rng.random() < 0.7 else rng.random()))
+            lam = rng.choice(LAMBDAS)
+            stages.append((2, rng.randint(0, 50), 1, lam, math.exp(-lam)))
         else:
             stages.append((0, rng.randrange(len(FNS))))
     if not any(s[0] in (1, 2) for s in stages):
@@ -422,14 +465,17 @@ def generate(rng, tier):
         for s in interleavings([6, 6]):
             cases.append(mk(0, 0, two, [(1,)], [(1, 1, 0, []), (1, 1, 0, s)]))
         for s in interleavings([6, 6]):   # sample: 6 traced lines per task
-            cases.append(mk(0, 0, two, [(2, 5, 0.5)], [(1, 1, 0, s)]))
+            cases.append(mk(0, 0, two, [(2, 5, 0, 0.5)], [(1, 1, 0, s)]))
+        for s in interleavings([6, 6]):
+            cases.append(mk(0, 0, two, [(2, 9, 1, 1.5, math.exp(-1.5))], [(1, 1, 0, s)]))
     else:
         srng = random.Random(rng.random())
         pool7 = list(interleavings([7, 7]))
         for s in srng.sample(pool7, 150):
             cases.append(mk(0, 0, two, [(1,)], [(1, 1, 0, s), (1, 1, 0, s[::-1])]))
         for s in srng.sample(list(interleavings([6, 6])), 60):
-            cases.append(mk(0, 0, two, [(2, 5, 0.5)], [(1, 1, 0, s)]))
+            cases.append(mk(0, 0, two, [(2, 5, 0, 0.5)], [(1, 1, 0, s)]))
+            cases.append(mk(0, 0, two, [(2, 9, 1, 1.5, math.exp(-1.5))], [(1, 1, 0, s)]))
     # pickled copies: the same canonical program, shorter bound
     if 1 in have:
         for s in all_schedules(2, 5 if quick else 8):
@@ -444,7 +490,7 @@ def generate(rng, tier):
     for b in sched_backends + [2]:
         cases.append(mk(b, 0, [[1, 2, 3]], [(1,)], [(1, 1, 0, [0, 0]), (1, 2, 0, [])]))
         cases.append(mk(b, 1, [[], []], [(1,), (1,)], [(2, 0, 0, [1, 0, 1]), (1, 3, 0, [])]))
-        cases.append(mk(b, 0, [[5, 6], [7], [8, 9, 1]], [(0, 3), (1,), (2, 7, 0.5), (1,), (0, 1)],
+        cases.append(mk(b, 0, [[5, 6], [7], [8, 9, 1]], [(0, 3), (1,), (2, 7, 0, 0.5), (1,), (0, 1)],
                         [(2, 1, 0, [2, 2, 2, 1]), (5, 0, 0, [0, 1, 2] * 9), (5, 4, 2, [2, 1, 0] * 3)]))
     # -- the same kind of program on the default executor and on the real pools ---------------------------
     for b in [x for x in have if x >= 2]:
@@ -478,3 +524,125 @@ def shrink_candidates(case):
             yield mk(backend, timed, parts[:pi] + [p[:-1]] + parts[pi + 1:], stages, jobs)
     if timed:
         yield mk(backend, 0, parts, stages, jobs)
+
+
+# ---------------------------------------------------------------------------------------------------
+# backends compared with each other on programs outside the modelled fragment (no model involved):
+# sampling with replacement (Poisson), closures capturing values, string data, coalesce, a TimedCacheManager
+def _free_program(spec):
+    """spec -> function(sc) returning the observed values of the program on context sc."""
+    data, slices, ops, seed = spec
+
+    def program(sc):
+        r = sc.parallelize(list(data), slices)
+        persisted = []
+        for op in ops:
+            if op[0] == 'add':
+                k = op[1]
+                r = r.map(lambda x, k=k: x + k if isinstance(x, int) else x + str(k))
+            elif op[0] == 'keep':
+                m = op[1]
+                r = r.filter(lambda x, m=m: hash(str(x)) % m != 0 if not isinstance(x, int) else x % m != 0)
+            elif op[0] == 'dup':
+                r = r.flatMap(lambda x: [x, x])
+            elif op[0] == 'persist':
+                r = r.persist()
+                persisted.append(r)
+            elif op[0] == 'bern':
+                r = r.sample(False, op[1], seed=seed + op[2])
+            elif op[0] == 'poisson':
+                r = r.sample(True, op[1], seed=seed + op[2])
+        def attempt(f):
+            try:
+                return f()
+            except Exception as e:  # pylint: disable=broad-except
+                return ('raised', type(e).__name__)
+
+        zero = '' if any(isinstance(x, str) for x in data) else 0
+        out = [attempt(f) for f in (
+            r.collect, r.count, r.collect,
+            lambda: [list(p.x()) for p in r.coalesce(max(1, slices - 1)).partitions()],
+            lambda: r.map(lambda x: (x, 1)).sampleByKey(False, {k: 0.5 for k in set(data)}, seed=seed).collect(),
+            lambda: r.reduce(operator.add),
+            lambda: r.fold(zero, operator.add),
+            lambda: r.aggregate((zero, 0), lambda a, x: (a[0] + x, a[1] + 1), lambda a, b: (a[0] + b[0], a[1] + b[1])),
+            lambda: r.take(3),
+            r.first,
+            lambda: r.zipWithUniqueId().collect(),
+            lambda: r.zipWithIndex().collect(),
+            lambda: r.map(lambda x: (x, 1)).reduceByKey(operator.add).collect(),
+            lambda: r.sample(True, 1.5, seed=seed + 1).persist().collect(),
+            lambda: r.distinct().count(),
+            r.collect,
+        )]
+        ids = {p.id(): n for n, p in enumerate(persisted)}
+        cm = sc._cache_manager  # pylint: disable=protected-access
+        out.append([((ids.get(k[0], -1), k[1]), list(v['mem_obj'])) for k, v in cm.cache_obj.items()])
+        if isinstance(cm, TimedCacheManager):
+            stamped = {k for k, _ in cm._time_added}  # pylint: disable=protected-access
+            out.append(sorted(k for k in cm.cache_obj if k not in stamped))
+        return out
+    return program
+
+
+def _free_spec(rng):
+    if rng.random() < 0.3:
+        data = [rng.choice('abcdefg') * rng.randint(1, 3) for _ in range(rng.randint(0, 12))]
+    else:
+        data = [rng.randint(-5, 30) for _ in range(rng.choice([0, 1, 1, 2, 3, 5, 8, 14]))]
+    ops = []
+    for _ in range(rng.randint(1, 6)):
+        k = rng.random()
+        if k < 0.3:
+            ops.append(('persist',))
+        elif k < 0.45:
+            ops.append(('bern', rng.choice([0.2, 0.5, 0.8]), rng.randint(0, 9)))
+        elif k < 0.6:
+            ops.append(('poisson', rng.choice([0.5, 1.0, 2.5]), rng.randint(0, 9)))
+        elif k < 0.75:
+            ops.append(('add', rng.randint(1, 5)))
+        elif k < 0.9:
+            ops.append(('keep', rng.randint(2, 4)))
+        else:
+            ops.append(('dup',))
+    slices = rng.randint(1, 4) if rng.random() < 0.7 else len(data) + rng.randint(1, 3)   # also: empty partitions
+    return (data, min(slices, 8), ops, rng.randint(0, 1000))
+
+
+_EXTRA = {'programs': 0, 'backend_runs': 0}
+
+
+def extra_checks(rng, tier, workdir):  # pylint: disable=unused-argument
+    n = 20 if tier == 'quick' else 300
+    have = [b for b in available_backends() if b != 2]
+    for _ in range(n):
+        spec = _free_spec(rng)
+        timed = int(rng.random() < 0.3)
+        program = _free_program(spec)
+        try:
+            want = program(make_context(2, timed)[0])
+        except Exception as e:  # pylint: disable=broad-except
+            yield ('dummy:free-program-raised', type(e).__name__, repr(spec), None)
+            continue
+        _EXTRA['programs'] += 1
+        for b in have:
+            sched = [[rng.randrange(spec[1]) for _ in range(rng.randint(0, 80))] for _ in range(40)]
+            try:
+                got = program(make_context(b, timed, sched)[0])
+            except Exception as e:  # pylint: disable=broad-except
+                yield (f'{BACKEND_NAMES[b]}:free-program-raised:{type(e).__name__}', 'program raised on this backend only',
+                       repr((spec, timed)), None)
+                continue
+            _EXTRA['backend_runs'] += 1
+            if got != want:
+                which = next(i for i, (g, w) in enumerate(zip(got, want)) if g != w)
+                names = ['collect', 'count', 'second-collect', 'coalesce', 'sampleByKey', 'reduce', 'fold', 'aggregate', 'take',
+                         'first', 'zipWithUniqueId', 'zipWithIndex', 'reduceByKey', 'poisson-sample-persist', 'distinct-count',
+                         'last-collect', 'cache', 'unstamped']
+                yield (f'{BACKEND_NAMES[b]}:free-program:{names[which]}-differs-from-default-executor',
+                       f'{names[which]}: {got[which]!r} instead of {want[which]!r}', repr((spec, timed, sched[:3])), None)
+
+
+def extra_evidence():
+    return {'backends_available': [BACKEND_NAMES[b] for b in available_backends()],
+            'free_programs_compared_across_backends': dict(_EXTRA)}
